@@ -564,6 +564,13 @@ class ORCA(autode.wrappers.methods.ExternalMethodOEGH):
 
             raise UnsupportedCalculationInput(message=err)
 
+        if molecule.solvent.orca not in vdw_gaussian_solvent_dict:
+            raise UnsupportedCalculationInput(
+                message=f"No CPCM solvent keyword is available for "
+                f"{molecule.solvent.name}. Available solvents are "
+                f"{vdw_gaussian_solvent_dict.keys()}"
+            )
+
         solv_name = vdw_gaussian_solvent_dict[molecule.solvent.orca]
         keywords.append(f"CPCM({solv_name})")
         return
